@@ -1204,9 +1204,61 @@ def closelim(tier, seed):
                                 k += 1
     return out
 
+def c04prepaid(tier, seed):
+    """state carried over: the insurance fund pre-paid a payout the vault could not cover (prepaid bad debt > 0);
+    then an under-water trader tries every way out (close, opposite order, withdrawal), is liquidated, deposits"""
+    out = []
+    k = 0
+    for coll in ("cw20", "native"):
+        native = coll == "native"
+        for side in ("buy", "sell"):
+            osd = "sell" if side == "buy" else "buy"
+            for (m1, m2, m3) in ((2500, 3000, 2000), (2000, 1500, 4000), (1000, 2500, 2500)):
+                for plr in (0, 25):
+                    tails = [
+                        [close("tr2"), close("tr3")],
+                        [dict(k="flatten", s="tr2", v="vamm1", delta=0), close("tr2"), close("tr3")],
+                        [tx("engine", "withdraw_margin", "tr2", dict(vamm="vamm1", amount=100)), opn("tr2", osd, 500, 1000), close("tr3")],
+                        [liq("liq", "tr2"), close("tr3"), liq("liq", "tr3")],
+                        [tx("engine", "deposit_margin", "tr2", dict(vamm="vamm1", amount=3000), funds=3000 if native else 0), close("tr2"), close("tr3")],
+                    ]
+                    for tl in tails:
+                        ops = [block(15), opn("tr1", side, m1, 1000, funds=m1 if native else 0),
+                               opn("tr2", side, m2, 1000, funds=m2 if native else 0),
+                               opn("tr3", side, m3, 1000, funds=m3 if native else 0), block(15),
+                               close("tr1"), query("engine", "state", {}), block(901)] + tl + [query("engine", "state", {})]
+                        out.append(dict(id="c04pp-%d" % k, deploy=dep(coll, engine=dict(plr=plr)), ops=ops))
+                        k += 1
+    return out
+
+def c05red(tier, seed):
+    """a position between bad debt and maintenance (0 < ratio < maintenance): the owner reduces it a little, a lot,
+    increases it, deposits and reduces"""
+    out = []
+    k = 0
+    for coll in ("cw20", "native"):
+        native = coll == "native"
+        for push in (3000, 3400, 3800, 4200, 4600):
+            for act in ("reduce1", "reduce_half", "increase", "deposit_reduce", "reduce_most"):
+                ops = underwater_prefix(native, push=push) + [query("engine", "margin_ratio", dict(vamm="vamm1", trader="tr1"))]
+                if act == "reduce1":
+                    ops += [opn("tr1", "sell", 100, 100)]
+                elif act == "reduce_half":
+                    ops += [opn("tr1", "sell", 1200, 1000)]
+                elif act == "reduce_most":
+                    ops += [opn("tr1", "sell", 2300, 1000)]
+                elif act == "increase":
+                    ops += [opn("tr1", "buy", 100, 1000, funds=100 if native else 0)]
+                else:
+                    ops += [tx("engine", "deposit_margin", "tr1", dict(vamm="vamm1", amount=2000), funds=2000 if native else 0), opn("tr1", "sell", 100, 100)]
+                ops += [query("engine", "margin_ratio", dict(vamm="vamm1", trader="tr1")), close("tr1"), close("tr2")]
+                out.append(dict(id="c05red-%d" % k, deploy=dep(coll), ops=ops))
+                k += 1
+    return out
+
 FAMILIES = ["c02lp", "c04", "c04r", "c04p", "c05", "c06", "c06f", "c07", "c08", "c10", "c16", "c17", "c03",
             "zsr", "zsrliq", "attached", "fundzero", "c07edge", "c14f", "c12hi", "c15sub", "selfliq", "c13flat",
-            "dustliq", "fundbig", "fundempty", "c06t", "closelim", "c17q"]
+            "dustliq", "fundbig", "fundempty", "c06t", "closelim", "c17q", "c04prepaid", "c05red"]
 
 def pool(tier, seed, cap=200, exclude=(), only_cw20=False):
     """a seeded sample across ALL scenario families: every engine property is also judged on the inputs that
@@ -1252,7 +1304,8 @@ def for_property(pid, tier, seed):
         out = [("c03fpool", c03(tier, seed)), ("c08sweeps", c08(tier, seed)), ("attached", attached(tier, seed)),
                ("selfliq", selfliq(tier, seed)), ("c12hi", c12hi(tier, seed)), ("dustliq", dustliq(tier, seed))]
     if pid == "C05":
-        out = [("c05lev", c05(tier, seed)), ("c08sweeps", c08(tier, seed)), ("attached", attached(tier, seed)), ("fundzero", fundzero(tier, seed))]
+        out = [("c05lev", c05(tier, seed)), ("c08sweeps", c08(tier, seed)), ("attached", attached(tier, seed)), ("fundzero", fundzero(tier, seed)),
+               ("c05reduce", c05red(tier, seed)), ("fundbig", fundbig(tier, seed))]
     if pid in ("C02", "C06", "C07"):
         out = [("c02lowprice", c02lp(tier, seed)), ("c06funding", c06f(tier, seed)), ("c04funding", c04(tier, seed)), ("c06liq", c06(tier, seed)),
                ("c07vault", c07(tier, seed)), ("c08sweeps", c08(tier, seed)), ("c16orderings", c16(tier, seed)),
@@ -1264,7 +1317,7 @@ def for_property(pid, tier, seed):
     if pid in ("C12", "C04"):
         out = [("c04reverse", c04r(tier, seed)), ("c04partial", c04p(tier, seed)), ("c04funding", c04(tier, seed)), ("c08sweeps", c08(tier, seed)),
                ("c16orderings", c16(tier, seed)), ("c07vault", c07(tier, seed)), ("c12hi", c12hi(tier, seed)), ("fundzero", fundzero(tier, seed)),
-               ("zsr", samp(zsr(tier, seed), n // 2, seed)), ("fundbig", fundbig(tier, seed)), ("c03ptr", c03(tier, seed)),
+               ("zsr", samp(zsr(tier, seed), n // 2, seed)), ("fundbig", fundbig(tier, seed)), ("c03ptr", c03(tier, seed)), ("c04prepaid", c04prepaid(tier, seed)),
                ("closelim", samp(closelim(tier, seed), n // 2, seed))]
     if pid == "C17":
         out = [("c17stale", c17(tier, seed)), ("closelim", closelim(tier, seed)), ("c17quote", c17q(tier, seed))]
